@@ -129,6 +129,11 @@ func (c *Real32) LOGSUB(a, b, t *Real32) *Real32 {
     c.SET(a)
     return c
   }
+  if a.GetFloat64() - b.GetFloat64() < math.Ln2 {
+    // 1 - exp(b-a) cancels for b close to a, see LogSub
+    c.LogSub(a, b, t)
+    return c
+  }
   t.SUB(b, a)
   t.EXP(t)
   t.NEG(t)
